@@ -46,7 +46,7 @@ def gen_cases(tier, seed):
                             if rng.random() < 0.6:
                                 script[ph].setdefault(k, []).append(["create", rng.choice(["a", "b"]), None])
                             else:
-                                script[ph].setdefault(k, []).append(["delete", rng.randrange(0, 4)])
+                                script[ph].setdefault(k, []).append(["delete", rng.randrange(0, 6)])
                     cases.append(dict(start=s, stop=e, dt=dt, collect=collect, driver=driver, n_agents=n_agents,
                                       script=script, changes=changes, nscen=rng.randint(1, 3)))
     return cases
@@ -72,7 +72,7 @@ def check_log(log, steps, collect, final_only_time=None):
     n = len(log)
 
     def skip_noise(j):
-        while j < n and log[j][0] in ("sent", "handled", "op"):
+        while j < n and log[j][0] in ("sent", "handled", "op", "population"):
             j += 1
         return j
     for idx, (r, s, t) in enumerate(steps):
@@ -87,6 +87,9 @@ def check_log(log, steps, collect, final_only_time=None):
             return dict(kind="harness", msg="no agents snapshot"), stats
         ids = log[i][1]
         i += 1
+        if ids != sorted(ids):
+            # ids are issued in creation order, so the live population must be listed (and act) in increasing id order
+            return dict(kind="creation-order", step=(r, s, t), agents=ids), stats
         for a in ids:
             i = skip_noise(i)
             if i >= n or log[i][0] != "handle" or log[i][1] != a or abs(log[i][2] - t) > 1e-9:
@@ -121,7 +124,8 @@ def run_case(case):
     counters = {}
     steps = expected_steps(case)
     dt = float(case["dt"])
-    agents = [{"name": "a", "count": case["n_agents"] - case["n_agents"] // 3}, {"name": "b", "count": case["n_agents"] // 3}]
+    # interleaved creation order of the two types (a b a b ...), so that "creation order" differs from "grouped by type"
+    agents = [{"name": "ab"[i % 2], "count": 1} for i in range(case["n_agents"])]
     logs = []
     try:
         if case["driver"] == "run":
